@@ -91,6 +91,13 @@ example : ∃ c, Reach P5 c5 c ∧ headSetup c 0 = true ∧ (c.A.scr 0).ready = 
     (c.log.filter (Ev.isCbOf 0 .setup)).length = 1 :=
   ⟨(runFuel P5 17 c5).1, reach_runFuel _ .init, by decide +kernel, by decide +kernel, by decide +kernel⟩
 
+/-- `setup` runs before the first `refresh`: in the log of every reachable configuration (newest
+first), every invocation of `refresh` of a screen has an earlier invocation of `setup` of that screen. -/
+theorem C08_setup_before_refresh (P : Prog) (c0 c : Cfg) (h0 : Started c0) (hr : Reach P c0 c) (s : Nat)
+    (a : Option Nat) (k : Option Str) (l1 l2 : List Ev) (h : c.log = l1 ++ .cb s .refresh a k :: l2) :
+    ∃ a' k', Ev.cb s .setup a' k' ∈ l2 :=
+  setup_before_refresh h0 hr h
+
 /-- The result of `setup` is looked at right after it returns, for the entry that was set up: the
 return instruction `scrRet scr .setup ret key` is directly followed by `afterSetup top` with
 `top.screen = scr`; the step sets the ready flag unless `ret` is "failed before", and the result
@@ -112,6 +119,13 @@ theorem C08_refresh_before_show (P : Prog) (c0 c : Cfg) (h0 : Started c0) (hr : 
     (l1 l2 : List Tr) (h : c.tr = l1 ++ .show e :: l2) : .refresh e ∈ l2 :=
   shows_refreshed h0 hr h
 
+/-- the same on the log of callback invocations: every `show` of a screen has an earlier `refresh` of
+that screen -/
+theorem C08_refresh_before_show_log (P : Prog) (c0 c : Cfg) (h0 : Started c0) (hr : Reach P c0 c) (s : Nat)
+    (a : Option Nat) (k : Option Str) (l1 l2 : List Ev) (h : c.log = l1 ++ .cb s .show a k :: l2) :
+    ∃ args, Ev.cb s .refresh args none ∈ l2 :=
+  refresh_before_show_log h0 hr h
+
 /-- `drawScreen top` is pushed only by the identity check of the same entry … -/
 theorem C08_draw_after_check (P : Prog) (c0 c c' : Cfg) (h0 : Started c0) (hr : Reach P c0 c) (h : StepTo P c c')
     (top : Entry) (hh : c'.code.head? = some (.drawScreen top)) : ∃ rest, c.code = .identCheck top :: rest :=
@@ -123,15 +137,8 @@ the return of `refresh` and the draw there is nothing but the comparison of `top
 stack. -/
 theorem C08_check_after_refresh (P : Prog) (c0 c : Cfg) (h0 : Started c0) (hr : Reach P c0 c) (scr : Nat)
     (ret : Ret) (key : Option Str) (pre post : List Instr) (hc : c.code = pre ++ .scrRet scr .refresh ret key :: post) :
-    ∃ top rest, post = .identCheck top :: .catchPS :: rest ∧ top.screen = scr := by
-  have hs := hr.shape h0
-  rw [hc] at hs
-  obtain ⟨j, r, rfl, top, rfl, h1⟩ := hs.at (i := .scrRet scr .refresh ret key) rfl
-  have hs' : Shape ((pre ++ [.scrRet scr .refresh ret key]) ++ .identCheck top :: r) := by simpa using hs
-  obtain ⟨j, r', rfl, hj⟩ := hs'.at (i := .identCheck top) rfl
-  simp only [Instr.needs] at hj
-  subst hj
-  exact ⟨top, r', rfl, h1⟩
+    ∃ top rest, post = .identCheck top :: .catchPS :: rest ∧ top.screen = scr :=
+  check_after_refresh h0 hr hc
 
 /-- the refresh step pushes exactly: the `refresh` callback with the entry's arguments, the identity
 check, the catcher -/
@@ -139,7 +146,7 @@ theorem C08_refresh_step (P : Prog) (c : Cfg) (top : Entry) (rest : List Instr) 
     ∃ c', step P c = .ok c' ∧
       c'.code = .callScr top.screen .refresh top.args none :: .identCheck top :: .catchPS :: rest ∧
       c'.tr = .refresh top :: c.tr ∧ c'.A = c.A ∧ c'.log = c.log :=
-  ⟨_, by simp only [step, hc], rfl, rfl, rfl, rfl⟩
+  refresh_step_eq P c top rest hc
 
 /-! ### a screen whose setup fails -/
 
@@ -207,7 +214,7 @@ theorem C08_close_step (P : Prog) (c : Cfg) (frm : Option Src) (e : Entry) (rest
     ∃ c', step P c = .ok c' ∧
       c'.code = .callScr e.screen .closed none none :: .closeScreen2 e frm :: rest ∧
       c'.A.stack = c.A.stack.dropLast ∧ c'.tr = .stackOp "close" c.A.stack.dropLast :: c.tr ∧ c'.log = c.log :=
-  ⟨_, by simp only [step, hc, he], rfl, rfl, rfl, rfl⟩
+  close_step_eq P c frm e rest hc he
 
 open Ex in
 /-- two closes (a modal dialog, then the screen): two `closed` callbacks, for the popped screens, in order -/
